@@ -16,11 +16,11 @@ structure Attribute where
   raw : Option Bytes
 deriving DecidableEq, Repr, Inhabited
 
-/-- attributes.rs:74-79 characters rejected in attribute names. -/
+/-- attributes.rs:75-78 characters rejected in attribute names. -/
 def attrNameForbidden (b : UInt8) : Bool :=
   b == 32 || b == 10 || b == 13 || b == 9 || b == 12 || b == 47 || b == 62 || b == 61
 
-/-- attributes.rs:67 `Attribute::name_from_string` (UTF-8 document: every string is encodable).
+/-- attributes.rs:68 `Attribute::name_from_string` (UTF-8 document: every string is encodable).
 `none` = `Err(AttributeNameError)`. -/
 def attrNameFromString (name : Bytes) : Option Bytes :=
   if name.isEmpty then none
@@ -47,7 +47,7 @@ def Attribute.intoBytes (a : Attribute) : Bytes :=
 def Attribute.setValue (a : Attribute) (value : Bytes) : Attribute :=
   { a with value := value, raw := none }
 
-/-- attributes.rs:229-236: `iter_mut().find(..)` then `set_value` on the first match, `none` if no
+/-- attributes.rs:233-237: `iter_mut().find(..)` then `set_value` on the first match, `none` if no
 attribute matches. -/
 def setFirstMatch (lname value : Bytes) : List Attribute → Option (List Attribute)
   | [] => none
@@ -55,7 +55,7 @@ def setFirstMatch (lname value : Bytes) : List Attribute → Option (List Attrib
     if eqCaseInsensitive a.name lname then some (a.setValue value :: rest)
     else (setFirstMatch lname value rest).map (a :: ·)
 
-/-- attributes.rs:221 `Attributes::set_attribute`; `none` = `Err(AttributeNameError)`, list unchanged. -/
+/-- attributes.rs:225 `Attributes::set_attribute`; `none` = `Err(AttributeNameError)`, list unchanged. -/
 def attrsSetAttribute (items : List Attribute) (name value : Bytes) : Option (List Attribute) :=
   match attrNameFromString (asciiLowerBytes name) with
   | none => none
@@ -72,11 +72,11 @@ def attrsRemoveAttribute (items : List Attribute) (name : Bytes) : List Attribut
     let items' := items.filter fun a => !eqCaseInsensitive a.name lname
     (items', items.length != items'.length)
 
-/-- attributes.rs:320 `impl Serialize for &mut Attributes`: a space before every attribute. -/
+/-- attributes.rs:321 `impl Serialize for &mut Attributes`: a space before every attribute. -/
 def attrsIntoBytes (items : List Attribute) : Bytes :=
   items.flatMap fun a => [32] ++ a.intoBytes
 
-/-- attributes.rs:191 `map_attribute` + `get_attribute`: value of the first matching attribute. -/
+/-- attributes.rs:193 `map_attribute` + `get_attribute`: value of the first matching attribute. -/
 def attrsGetAttribute (items : List Attribute) (name : Bytes) : Option Bytes :=
   match attrNameFromString (asciiLowerBytes name) with
   | none => none
@@ -105,12 +105,12 @@ deriving DecidableEq, Repr, Inhabited
 /-- Operations of the public `StartTag` API. -/
 inductive StartTagOp
   | mut (op : MutOp)                       -- before / after / replace / remove (+ streaming_*)
-  | setName (name : Bytes)                 -- start_tag.rs:81 `set_name` (unchecked)
+  | setName (name : Bytes)                 -- start_tag.rs:78 `set_name` (unchecked)
   | setAttribute (name value : Bytes)      -- start_tag.rs:121
   | removeAttribute (name : Bytes)         -- start_tag.rs:131
 deriving DecidableEq, Repr, Inhabited
 
-/-- start_tag.rs:68 `set_name_raw`. -/
+/-- start_tag.rs:66 `set_name_raw`. -/
 def StartTag.setNameRaw (t : StartTag) (name : Bytes) : StartTag :=
   { t with name := name, modified := true }
 
@@ -125,7 +125,7 @@ def StartTag.removeAttribute (t : StartTag) (name : Bytes) : StartTag :=
   let r := attrsRemoveAttribute t.attributes name
   if r.2 then { t with attributes := r.1, modified := true } else t
 
-/-- start_tag.rs:156 `set_self_closing_syntax` (does *not* mark the tag modified). -/
+/-- start_tag.rs:155 `set_self_closing_syntax` (does *not* mark the tag modified). -/
 def StartTag.setSelfClosingSyntax (t : StartTag) (hasSlash : Bool) : StartTag :=
   { t with selfClosing := hasSlash }
 
@@ -137,7 +137,7 @@ def StartTag.apply (t : StartTag) : StartTagOp → StartTag
 
 def StartTag.applyOps (t : StartTag) (ops : List StartTagOp) : StartTag := ops.foldl StartTag.apply t
 
-/-- start_tag.rs:233 `serialize_self`. -/
+/-- start_tag.rs:232 `serialize_self`. -/
 def StartTag.serializeSelf (t : StartTag) : Bytes :=
   if !t.modified then t.raw
   else
@@ -162,7 +162,7 @@ deriving DecidableEq, Repr, Inhabited
 
 inductive EndTagOp
   | mut (op : MutOp)
-  | setName (name : Bytes)               -- end_tag.rs:67 `set_name` (unchecked)
+  | setName (name : Bytes)               -- end_tag.rs:68 `set_name` (unchecked)
 deriving DecidableEq, Repr, Inhabited
 
 /-- end_tag.rs:56 `set_name_raw`. -/
@@ -174,7 +174,7 @@ def EndTag.apply (t : EndTag) : EndTagOp → EndTag
 
 def EndTag.applyOps (t : EndTag) (ops : List EndTagOp) : EndTag := ops.foldl EndTag.apply t
 
-/-- end_tag.rs:166 `serialize_self`. -/
+/-- end_tag.rs:168 `serialize_self`. -/
 def EndTag.serializeSelf (t : EndTag) : Bytes :=
   if !t.modified then t.raw else [60, 47] ++ t.name ++ [62]
 
@@ -202,12 +202,12 @@ def containsSeq (p : Bytes) : Bytes → Bool
   | [] => p.isEmpty
   | b :: rest => startsWith p (b :: rest) || containsSeq p rest
 
-/-- comment.rs:38 `contains_comment_closing_sequence`. -/
+/-- comment.rs:50 `contains_comment_closing_sequence`. -/
 def containsCommentClosingSequence (text : Bytes) : Bool :=
   containsSeq [45, 45, 62] text || containsSeq [45, 45, 33, 62] text
     || startsWith [62] text || startsWith [45, 62] text
 
-/-- comment.rs:74 `set_text` (UTF-8 document); on `Err` nothing changes. -/
+/-- comment.rs:85 `set_text` (UTF-8 document); on `Err` nothing changes. -/
 def Comment.setText (c : Comment) (text : Bytes) : Comment :=
   if containsCommentClosingSequence text then c
   else { c with text := text, modified := true }
@@ -218,7 +218,7 @@ def Comment.apply (c : Comment) : CommentOp → Comment
 
 def Comment.applyOps (c : Comment) (ops : List CommentOp) : Comment := ops.foldl Comment.apply c
 
-/-- comment.rs:178 `serialize_self`. -/
+/-- comment.rs:246 `serialize_self`. -/
 def Comment.serializeSelf (c : Comment) : Bytes :=
   if !c.modified then c.raw else [60, 33, 45, 45] ++ c.text ++ [45, 45, 62]
 
@@ -234,7 +234,7 @@ deriving DecidableEq, Repr, Inhabited
 
 inductive TextOp
   | mut (op : MutOp)
-  | setStr (text : Bytes)                -- text_chunk.rs:124 `set_str`
+  | setStr (text : Bytes)                -- text_chunk.rs:136 `set_str`
 deriving DecidableEq, Repr, Inhabited
 
 def TextChunk.apply (c : TextChunk) : TextOp → TextChunk
@@ -243,7 +243,7 @@ def TextChunk.apply (c : TextChunk) : TextOp → TextChunk
 
 def TextChunk.applyOps (c : TextChunk) (ops : List TextOp) : TextChunk := ops.foldl TextChunk.apply c
 
-/-- text_chunk.rs:301 `serialize_self`: the text goes through the sink as `ContentType::Html`
+/-- text_chunk.rs:332 `serialize_self`: the text goes through the sink as `ContentType::Html`
 (skipped when empty). -/
 def TextChunk.serializeSelf (enc : Enc) (c : TextChunk) : Bytes :=
   if !c.text.isEmpty then enc .html c.text else []
@@ -259,7 +259,7 @@ structure Doctype where
 deriving DecidableEq, Repr, Inhabited
 
 inductive DoctypeOp
-  | remove                                -- doctype.rs:89
+  | remove                                -- doctype.rs:99
 deriving DecidableEq, Repr, Inhabited
 
 def Doctype.apply (d : Doctype) : DoctypeOp → Doctype
@@ -267,10 +267,10 @@ def Doctype.apply (d : Doctype) : DoctypeOp → Doctype
 
 def Doctype.applyOps (d : Doctype) (ops : List DoctypeOp) : Doctype := ops.foldl Doctype.apply d
 
-/-- doctype.rs:107 `impl Serialize for &Doctype`. -/
+/-- doctype.rs:119 `impl Serialize for &Doctype`. -/
 def Doctype.intoBytes (d : Doctype) : Bytes := if !d.removed then d.raw else []
 
-/-! ### `Token` (tokens/mod.rs:69) -/
+/-! ### `Token` (tokens/mod.rs:70) -/
 
 inductive Token
   | textChunk (t : TextChunk)
@@ -301,7 +301,7 @@ def Token.apply : Token → TokenOp → Token
 
 def Token.applyOps (t : Token) (ops : List TokenOp) : Token := ops.foldl Token.apply t
 
-/-- tokens/mod.rs:77 `impl Serialize for Token`. -/
+/-- tokens/mod.rs:78 `impl Serialize for Token`. -/
 def Token.intoBytes (enc : Enc) : Token → Bytes
   | .textChunk t => t.intoBytes enc
   | .startTag t => t.intoBytes enc
